@@ -10,7 +10,7 @@ import math
 
 from hypothesis import strategies as st
 
-from vlib.core import Sub, req, sut
+from vlib.core import fuzz_variant, Sub, req, sut
 
 PROPERTY = "C16"
 RULE = ("exhaustive: 1-4 labels on 0..12 (repeats allowed) x resolution {1,2,3,5} x start {-4,-1,0,1,3,6} x end "
@@ -210,7 +210,7 @@ def peaks_case(draw):
 
 def subchecks(tier):
     q = tier == "quick"
-    return [
+    subs = [
         Sub("vectorise-exhaustive", "enum", check_vec, enumerate=enum_vec(True), exhaustive=True,
             describe="1-4 labels on 0..12 x res x start x end", time_budget_s=3000),
         Sub("blur-exhaustive", "enum", check_blur, enumerate=enum_blur, exhaustive=True, describe="all bit vectors len<=10 x radius 0..4"),
@@ -219,3 +219,8 @@ def subchecks(tier):
         Sub("peaks", "hyp", check_peaks, strategy=peaks_case, examples=8000 if q else 300000, shrink_budget=800,
             required_classes=("tie-at-cut",)),
     ]
+    if not q:
+        subs.append(fuzz_variant(next(s for s in subs if s.name == "vectorise-random"), 40000))
+    if not q:
+        subs.append(fuzz_variant(next(s for s in subs if s.name == "peaks"), 40000))
+    return subs
